@@ -11,7 +11,7 @@ def _bt_lang_filter(ctx):
     from pyvc import bounded_text
     return bounded_text.lang_filter(ctx)
 
-BOUNDED = [_bt_lang_filter, hub_bounded('C13-lang-hub', ['lang', 'basic', 'attrs', 'plain', 'ns', 'svghtml'], ['lang'])]
+BOUNDED = [_bt_lang_filter, hub_bounded('C13-lang-hub', ['lang', 'langmeta', 'basic', 'attrs', 'plain', 'ns', 'svghtml', 'xlang'], ['lang'])]
 TRUSTED = [A_PY, A_BS4, A_SMT, 'str.lower / str.split / re.sub are uninterpreted (the proof is about the matching loop on the split subtag lists); that stripping non-leading wildcards preserves RFC 4647 matching is bounded (exhaustive small scope)', A_SINGLE, 'split_namespace (getattr of a NamespacedAttribute key) is an assumed contract (A-bs4)']
 ASSUMPTIONS = TRUSTED
 EXPLANATION = ('Proved: match_lang returns sem_lang = "some range of every :lang() matches elem_lang(el)", where elem_lang is the nearest language attribute '
